@@ -11,6 +11,8 @@ import sys
 VERIF = os.path.dirname(os.path.dirname(os.path.abspath(__file__)))
 sys.path.insert(0, VERIF)
 os.environ["VERIF_NO_ALPHA"] = "1"
+os.environ["VERIF_NO_INLINE"] = "1"
+import ast
 from sa import alpha, srcmodel, tables  # noqa: E402
 
 m = srcmodel.Model()
@@ -25,3 +27,15 @@ for q, fi in sorted(m.funcs.items()):
 with open(os.path.join(VERIF, "reference", "locals.json"), "w") as fh:
     json.dump(out, fh, indent=0, sort_keys=True)
 print(len(out), "functions")
+funcs = {"__schema__": sorted(x[len(m.pkg) + 1:] for x in skip)}
+for q, fi in sorted(m.funcs.items()):
+    if fi.module in skip:
+        continue
+    sq = q[len(m.pkg) + 1:]
+    funcs[sq] = 1
+    for n in ast.walk(fi.node):
+        if isinstance(n, ast.FunctionDef) and n is not fi.node:
+            funcs[sq + ".<locals>." + n.name] = 1
+with open(os.path.join(VERIF, "reference", "functions.json"), "w") as fh:
+    json.dump(funcs, fh, indent=0, sort_keys=True)
+print(len(funcs), "function names")
